@@ -2,9 +2,11 @@
     implementation's outcome (the failing-input search).
 
     case    = ( cfg html-bytes parsed-tree )
-    outcome = ok ( cleaned-tree reparsed-output-tree )
+    outcome = ok ( cleaned-tree reparsed-output-tree ( entry-points-agree ) )
     The reparsed tree (html5ever's parser applied to the serialized output) is not modelled:
-    it is echoed into the model outcome, and the specification is evaluated on it. *)
+    it is echoed into the model outcome, and the specification is evaluated on it.  The flag
+    says that the string entry points ([sanitize_html], [remove_html_reply_fallback],
+    [Html::sanitize]) returned the serialization of the cleaned tree; echoed and required. *)
 From Base Require Import Prelude Sx.
 From C14 Require Import Dom Tables Model Spec Wire.
 
@@ -43,13 +45,13 @@ Definition run (x : sx) : sx :=
       | Some cfg, Some f =>
           let m := sx_of_forest (clean html_tables cfg f) in
           match impl with
-          | SL [SN 0%Z; SL [out; re]] =>
-              SL [SL [SN 0; SL [m; re]];
+          | SL [SN 0%Z; SL [out; re; SL [SN entry]]] =>
+              SL [SL [SN 0; SL [m; re; SL [SN entry]]];
                   sx_bool (match forest_of_sx out, forest_of_sx re with
-                           | Some o, Some r => spec_ok cfg f o r
+                           | Some o, Some r => spec_ok cfg f o r && negb (entry =? 0)%Z
                            | _, _ => false
                            end)]
-          | _ => SL [SL [SN 0; SL [m; SL []]]; sx_bool false]     (* the sanitizer must not panic *)
+          | _ => SL [SL [SN 0; SL [m; SL []; SL []]]; sx_bool false]   (* the sanitizer must not panic *)
           end
       | _, _ => sx_bad
       end
